@@ -405,6 +405,9 @@ func programs(thorough bool) []prog {
 		{"group", "var (\n\ta = lg(\"var main.a\") + c\n\tb = lg(\"var main.b\")\n\tc = lg(\"var main.c\") + b\n)\n\n"},
 		{"closure", "var a = func() int { return lg(\"var main.a\") + b }()\n\nvar b = lg(\"var main.b\")\n\n"},
 		{"funcvalue", "var a = apply(fb)\n\nvar b = lg(\"var main.b\")\n\nfunc fb() int { return b }\n\nfunc apply(f func() int) int { Show(\"var main.a\"); return f() }\n\n"},
+		{"field-key-name", "type T struct{ X int }\n\nvar a = T{X: lg(\"var main.a\")}\n\nvar X = lg(\"var main.X\") + a.X\n\n"},
+		{"closure-local-shadow", "var a = func() int { b := 2; return b + lg(\"var main.a\") }()\n\nvar b = lg(\"var main.b\") + a\n\n"},
+		{"blank-multi", "var _, y = lg(\"var main._\"), lg(\"var main.y\") + z\n\nvar z = lg(\"var main.z\")\n\n"},
 		{"spec-example", "var a = lg(\"var main.a\") + b\n\nvar b = lg(\"var main.b\") + c\n\nvar c = lg(\"var main.c\")\n\nvar d = lg(\"var main.d\")\n\n"},
 	}
 	for _, m := range multi {
